@@ -1163,10 +1163,18 @@ func more2NilableDeref(p *Program, r *Report) {
 
 func more2LockUpgrade(p *Program, r *Report) {
 	rule := "R-C20-9"
-	r.Rule(rule, "no goroutine waits for itself: a method that holds the read lock of a struct's RWMutex (RLock without an RUnlock before the call, or a deferred RUnlock) does not call a method of the same receiver that takes the write lock (sync.RWMutex is not re-entrant: the caller blocks forever and every later Lock/RLock queues behind it)", 2)
-	// methods that take the write lock of their receiver, per receiver type
-	locks := map[string]map[string]bool{} // recv type -> method name
-	for _, pk := range []string{"auth", "backend/posix", "s3event", "s3log", "metrics"} {
+	r.Rule(rule, "no goroutine waits for itself: a method that holds the (read or write) lock of its receiver's mutex (Lock/RLock without the matching unlock before the call, or a deferred unlock) does not call a method of the same receiver that acquires that mutex again (sync.Mutex / sync.RWMutex are not re-entrant, and a read lock requested behind a pending writer blocks: the caller waits for itself and every later lock request queues behind it)", 2)
+	pkgs := []string{"auth", "backend/posix", "backend/scoutfs", "s3event", "s3log", "metrics", "s3api/utils"}
+	isAcquire := func(cn string) bool {
+		return cn == "(*sync.RWMutex).Lock" || cn == "(*sync.RWMutex).RLock" || cn == "(*sync.Mutex).Lock"
+	}
+	isRelease := func(cn string) bool {
+		return cn == "(*sync.RWMutex).Unlock" || cn == "(*sync.RWMutex).RUnlock" || cn == "(*sync.Mutex).Unlock"
+	}
+	// the mutex a lock call operates on, as "field path of the receiver" ("" = the embedded mutex)
+	mutexOf := func(c ssa.CallInstruction) string { return descOf(callRecv(c)) }
+	acquirers := map[string]map[string]string{} // recv type -> method -> mutex
+	for _, pk := range pkgs {
 		if p.SSAPkg[pk] == nil {
 			continue
 		}
@@ -1175,18 +1183,18 @@ func more2LockUpgrade(p *Program, r *Report) {
 				continue
 			}
 			for _, c := range callsIn(f) {
-				if calleeName(c) == "(*sync.RWMutex).Lock" || calleeName(c) == "(*sync.Mutex).Lock" {
+				if isAcquire(calleeName(c)) {
 					rt := typeStr(f.Signature.Recv().Type())
-					if locks[rt] == nil {
-						locks[rt] = map[string]bool{}
+					if acquirers[rt] == nil {
+						acquirers[rt] = map[string]string{}
 					}
-					locks[rt][fnName(f)] = true
+					acquirers[rt][fnName(f)] = mutexOf(c)
 				}
 			}
 		}
 	}
 	n := 0
-	for _, pk := range []string{"auth", "backend/posix", "s3event", "s3log", "metrics"} {
+	for _, pk := range pkgs {
 		if p.SSAPkg[pk] == nil {
 			continue
 		}
@@ -1195,57 +1203,79 @@ func more2LockUpgrade(p *Program, r *Report) {
 				continue
 			}
 			rt := typeStr(f.Signature.Recv().Type())
-			var rlocks, runlocks []ssa.CallInstruction
+			var locks, unlocks []ssa.CallInstruction
 			deferred := false
 			for _, c := range callsIn(f) {
-				switch calleeName(c) {
-				case "(*sync.RWMutex).RLock":
-					rlocks = append(rlocks, c)
-				case "(*sync.RWMutex).RUnlock":
+				cn := calleeName(c)
+				switch {
+				case isAcquire(cn):
+					if _, isDefer := c.(*ssa.Defer); !isDefer {
+						locks = append(locks, c)
+					}
+				case isRelease(cn):
 					if _, isDefer := c.(*ssa.Defer); isDefer {
 						deferred = true
 					} else {
-						runlocks = append(runlocks, c)
+						unlocks = append(unlocks, c)
 					}
 				}
 			}
-			if len(rlocks) == 0 {
+			if len(locks) == 0 {
 				continue
 			}
 			n++
 			bad := ""
 			for _, c := range callsIn(f) {
 				cal := c.Common().StaticCallee()
-				if cal == nil || !locks[rt][fnName(cal)] {
+				if cal == nil {
 					continue
 				}
-				for _, rl := range rlocks {
-					if !mayPrecede(rl, c) {
+				mx, ok := acquirers[rt][fnName(cal)]
+				if !ok || cal == f {
+					continue
+				}
+				// same receiver object?
+				if rv := callRecv(c); rv == nil || descOf(rv) != descOf(f.Params[0]) {
+					continue
+				}
+				for _, lk := range locks {
+					if mutexOf(lk) != mx || !mayPrecede(lk, c) {
 						continue
 					}
 					held := deferred
 					if !held {
-						// some path from the RLock to the call without an RUnlock
 						avoid := map[*ssa.BasicBlock]bool{}
-						for _, ru := range runlocks {
+						for _, ru := range unlocks {
 							avoid[ru.Block()] = true
 						}
-						if rl.Block() == c.Block() {
-							held = true
-							for _, ru := range runlocks {
-								if ru.Block() == c.Block() && instrIndex(ru) > instrIndex(rl) && instrIndex(ru) < instrIndex(c) {
+						if lk.Block() == c.Block() {
+							held = instrIndex(lk) < instrIndex(c)
+							for _, ru := range unlocks {
+								if ru.Block() == c.Block() && instrIndex(ru) > instrIndex(lk) && instrIndex(ru) < instrIndex(c) {
 									held = false
 								}
 							}
 						} else {
-							for _, su := range rl.Block().Succs {
-								if reachableAvoiding(f, su, nil, avoid)[c.Block()] {
-									held = true
+							releasedInLockBlock := false
+							for _, ru := range unlocks {
+								if ru.Block() == lk.Block() && instrIndex(ru) > instrIndex(lk) {
+									releasedInLockBlock = true
 								}
 							}
-							for _, ru := range runlocks {
-								if ru.Block() == rl.Block() && instrIndex(ru) > instrIndex(rl) {
-									held = false
+							if !releasedInLockBlock {
+								for _, su := range lk.Block().Succs {
+									if su == c.Block() || reachableAvoiding(f, su, nil, avoid)[c.Block()] {
+										// released earlier in the call's own block?
+										rel := false
+										for _, ru := range unlocks {
+											if ru.Block() == c.Block() && instrIndex(ru) < instrIndex(c) {
+												rel = true
+											}
+										}
+										if !rel {
+											held = true
+										}
+									}
 								}
 							}
 						}
@@ -1255,11 +1285,11 @@ func more2LockUpgrade(p *Program, r *Report) {
 					}
 				}
 			}
-			r.Check(bad == "", rule, fnName(f)+"/read-lock-then-write-lock", p.Pos(f.Pos()), "no write-locking method called under the read lock", "while holding the read lock the method calls "+bad+", which takes the write lock of the same mutex: the goroutine deadlocks on itself and every later account lookup blocks behind the pending writer (the gateway stops answering non-root requests)")
+			r.Check(bad == "", rule, fnName(f)+"/no-reacquire-under-lock", p.Pos(f.Pos()), "no method that locks the same mutex is called while it is held", "while holding the lock the method calls "+bad+", which acquires the same mutex: the goroutine deadlocks on itself and every later lock request blocks behind it (the gateway stops answering)")
 		}
 	}
 	if n < 2 {
-		broken("R-C20-9: only %d read-locking methods found", n)
+		broken("R-C20-9: only %d locking methods found", n)
 	}
 }
 
